@@ -112,6 +112,100 @@ theorem C13_missing_signer_info_rejected :
     anteHandle witnessState unsignedTx = .error "sig" ∧ anteHandle witnessState halfSignedTx = .error "sig" := by
   constructor <;> simp [anteHandle, witnessState, unsignedTx, forgedTx, halfSignedTx, Tx.signers, dedupNat]
 
+/-! ### several signers, several messages (seeds C10-f / C13-f) -/
+
+/-- messages of validators 0 and 1, both SignerInfos present with the right keys, the SECOND
+signature does not verify (an arbitrary 64-byte string in validator 1's slot) -/
+def forgedCosignerTx : Tx :=
+  { halfSignedTx with infos := [{ pubkeyMatches := true, sigValid := true }, { pubkeyMatches := true, sigValid := false }] }
+
+/-- three signers, only the THIRD slot is bad -/
+def forgedThirdSignerTx : Tx :=
+  { size := 500,
+    infos := [{ pubkeyMatches := true, sigValid := true }, { pubkeyMatches := true, sigValid := true }, { pubkeyMatches := true, sigValid := false }],
+    msgs := [{ creator := 0, feederID := 1, basedBlock := 2, nonce := 1, prices := [] },
+             { creator := 1, feederID := 1, basedBlock := 2, nonce := 1, prices := [] },
+             { creator := 2, feederID := 1, basedBlock := 2, nonce := 1, prices := [] }] }
+
+/-- a bad signature in ANY slot refuses the tx: position-independent, for every number of signers -/
+theorem C13_any_bad_slot_rejected (s : State) (tx : Tx) (i : SigInfo) (hi : i ∈ tx.infos)
+    (hbad : i.sigValid = false ∨ i.pubkeyMatches = false) (st : Store) : anteHandle s tx ≠ .ok st := by
+  intro h
+  have := ((C13_admitted_iff s tx st).mp h).2.2.1 i hi
+  rcases hbad with hb | hb <;> simp [hb] at this
+
+/-- Regressions for seed C10-f (only the first signature verified): second slot of two, third of three. -/
+theorem C13_forged_cosigner_rejected :
+    anteHandle witnessState forgedCosignerTx = .error "sig" ∧ anteHandle witnessState forgedThirdSignerTx = .error "sig" := by
+  constructor <;> simp [anteHandle, witnessState, forgedCosignerTx, forgedThirdSignerTx, halfSignedTx, Tx.signers, dedupNat]
+
+/-- sigverify.go, oracle branch, the signature loop as written:
+`for i, sig := range sigs { … if !simulate && !pubKey.VerifySignature(…) { return ctx, err } }; return next(…)`
+— `true` = `next` is reached. (`Props/C13Tie.lean: C13_tie_sig_loop` ties this shape to the source: one loop
+over `sigs`, only error returns inside, the guard at the top level of the body, `next` after the loop.) -/
+def sigLoop : List SigInfo → Bool
+  | [] => true
+  | i :: rest => if !i.sigValid then false else sigLoop rest
+
+/-- the loop reaches `next` ⇔ EVERY slot verifies — it is the `infos.any (!·.sigValid)` test of `anteHandle` -/
+theorem C13_sig_loop_verifies_every_slot (l : List SigInfo) :
+    (sigLoop l = true ↔ ∀ i ∈ l, i.sigValid = true) ∧ sigLoop l = !(l.any (fun i => !i.sigValid)) := by
+  induction l with
+  | nil => simp [sigLoop]
+  | cons a rest ih =>
+    cases ha : a.sigValid <;> simp [sigLoop, ha, ih.1, ih.2]
+
+/-- the loop with `return next(…)` moved into its body (seed C10-f): only slot 0 is looked at -/
+def sigLoopFirstOnly : List SigInfo → Bool
+  | [] => false
+  | i :: _ => if !i.sigValid then false else true
+
+/-- … which is a different function: it lets `forgedCosignerTx` through -/
+theorem C13_first_slot_only_differs :
+    sigLoopFirstOnly forgedCosignerTx.infos = true ∧ sigLoop forgedCosignerTx.infos = false := by decide
+
+/-- two submissions of validator 0 (nonces 1 and 2) in one tx of 1198 bytes — each message far below
+the limit, the tx above it (seed C13-f: limit multiplied by the number of messages) -/
+def batchedTx : Tx :=
+  { size := 1198, infos := [{ pubkeyMatches := true, sigValid := true }],
+    msgs := [{ creator := 0, feederID := 1, basedBlock := 2, nonce := 1, prices := [] },
+             { creator := 0, feederID := 1, basedBlock := 2, nonce := 2, prices := [] }] }
+
+/-- The size rule is per TRANSACTION: the tx is refused for its size ⇔ its raw size exceeds 1000
+bytes — whatever the number of messages, signers, signatures and nonces it carries. -/
+theorem C13_size_error_iff (s : State) (tx : Tx) : anteHandle s tx = .error "size" ↔ 1000 < tx.size := by
+  unfold anteHandle
+  by_cases h1 : tx.size > 1000
+  · simp [h1]
+  · simp only [h1, if_false]
+    constructor
+    · intro h
+      exfalso
+      split at h
+      · simp at h
+      · split at h
+        · simp at h
+        · split at h
+          · simp at h
+          · split at h <;> simp at h
+    · intro h
+      first
+        | exact h.elim
+        | exact absurd h h1
+
+/-- no multiple of the limit is granted to a tx with several messages -/
+theorem C13_size_limit_not_per_message (s : State) (tx : Tx) (h : 1000 < tx.size) (st : Store) :
+    anteHandle s tx ≠ .ok st := by
+  rw [(C13_size_error_iff s tx).mpr h]; simp
+
+/-- Regression for seed C13-f: the batched tx is refused at 1198 bytes and admitted at 1000. -/
+theorem C13_batched_oversize_rejected :
+    anteHandle witnessState batchedTx = .error "size" ∧
+    anteHandle witnessState { batchedTx with size := 1000 } = .ok { witnessState.store with nonces := [((0, 1), 2)] } := by
+  constructor
+  · simp [anteHandle, batchedTx]
+  · simp [anteHandle, anteNonces, Store.checkNonce, witnessState, batchedTx, witnessParams, alookup, aset, Tx.signers, dedupNat]
+
 /-- The nonce rule: accepted ⇒ the sender has an entry for that feeder (only validators of an open
 round have one), the nonce is exactly previous+1, it is within MaxNonce, and only that entry moves. -/
 theorem C13_nonce_rule (st st' : Store) (mn v f : Nat) (n : Int) (h : st.checkNonce mn v f n = some st') :
